@@ -8,7 +8,7 @@ from proglayer import parse_trace, parse_case
 PROPS = "Props/C19.v"
 RULE = ("C19: programs over the tokio-compatible mpsc (bounded/unbounded: send, blocking_send, try_send, recv, blocking_recv, try_recv, close, drops, len/capacity), "
         "Semaphore (acquire_many, try_acquire_many, add_permits, forget, close; SemaphorePermit::merge / split / num_permits), Mutex, RwLock (with_max_readers, RwLockWriteGuard::downgrade), Notify (notified, enable, await, drop, notify_one, notify_waiters), oneshot and watch (send, send_modify / send_if_modified, send_replace, borrow, borrow_and_update, has_changed, changed, wait_for, subscribe, closed, is_closed / receiver_count, drops of both sides; Sender and Receiver clones), "
-        "run by threads (block_on / blocking_*) and by tokio::spawn-ed futures, each on the real crates under a scripted scheduler and on the extracted Coq model (Lang/Tok.v): decisions "
+        "run by threads (block_on / blocking_*) and by tokio::spawn-ed futures (bodies with an odd index go through the _owned variant of every acquisition: acquire_many_owned, try_acquire_many_owned, lock_owned, try_lock_owned, read_owned, write_owned, try_read_owned, try_write_owned, the owned guards' downgrade / merge / split / forget), each on the real crates under a scripted scheduler and on the extracted Coq model (Lang/Tok.v): decisions "
         "(offered, current, yielding, choice), draws, per-operation results, vector clocks, termination and recorded schedule compared.  Oracles on the crate's own traces: FIFO exactly-once delivery, "
         "no value lost before a None, capacity never exceeded, Full only when full, len+capacity=bound at rest, permits held never exceed permits existing (exclusion for locks), and every deadlock "
         "re-judged against reference semantics of the tokio contracts (channel buffer, permit counts, Notify by counting; watch: a borrow returns the latest value, has_changed / changed report exactly the sends since the receiver's last look, closure only once every sender is gone, no change notification lost at a deadlock).  Every 6th program is wild (dead endpoints, nothing held, zero permits, capacity 0).")
@@ -23,6 +23,9 @@ CORPUS = [
     "tok none - 1 s1 ta0.0",
     "tok none - 1 s1 ac0.0",
     "tok none - 1 s1 sc0;ta0.0;ac0.0",
+    "tok none - 1 s1 st1;jt0|ac0.0;si0",
+    "tok none - 1 s1 st1;jt0|ta0.0;si0",
+    "tok none - 1 s1 st1;jt0|sc0;ac0.0;ta0.0",
     "tok none - 1 s2 ac0.0;ta0.0;si0;rl0;rl0;si0",
     "tok none - 1 n nf0;en0;no0;dn0;nf0;an1",
     "tok none - 1 n no0;na0;nf0;an0",
